@@ -171,6 +171,8 @@ def u2_names(sc):
         return {1: "samedecl" + s, 2: "samedecl" + s, "m1": "_moda", "m2": "_modb"}
     if v == "suffix":
         return {1: "public_tail" + s, 2: "_tail" + s, "m1": "_moda", "m2": "_modb"}
+    if v in ("privtwin", "privtwindeep"):
+        return {1: "declone" + s, 2: "decltwo" + s, "m1": "modsame" + s, "m2": "modsame" + s}
     if v == "stdlibname":
         return {1: "declone" + s, 2: "decltwo" + s, "m1": "moda", "m2": "logging"}
     if v == "suffixalias":
@@ -199,6 +201,12 @@ def u2_files(sc, root: str) -> dict:
                                                   f"class {nm[1]}(_Base{s}):\n    def m_d1(self) -> int:\n        ...\n\n\n"
                                                   f"class {nm[2]}(_Base{s}):\n    def m_shared(self, from_own: int) -> int:\n        ...\n\n    def m_d2(self) -> int:\n        ...\n")
         files[f"{sid}/sub/{nm['m2']}.py"] = "def fillb" + s + "() -> int:\n    ...\n"
+    if sc.get("variant") in ("privtwin", "privtwindeep"):      # module 2 moves into a private package
+        hid = f"{sid}/_hid" if sc["variant"] == "privtwin" else f"{sid}/sub/deep/_hid"
+        del files[f"{sid}/sub/{nm['m2']}.py"]
+        files[f"{sid}/sub/fillb{s}.py"] = "def fillb" + s + "() -> int:\n    ...\n"
+        files[f"{hid}/__init__.py"] = ""
+        files[f"{hid}/{nm['m2']}.py"] = decl(2)
     if sc.get("variant") == "pkgmodreexp":   # both declarations live in package files; sub re-exports the package deep as a module
         files[f"{sid}/sub/deep/{nm['m1']}.py"] = "def filldeep" + s + "() -> int:\n    ...\n"
         files[f"{sid}/sub/{nm['m2']}.py"] = "def fillsub" + s + "() -> int:\n    ...\n"
@@ -245,7 +253,7 @@ def u2_observe(sc, stubs: Stubs, rootname: str, idx: dict | None = None) -> dict
                                   "members": [m.pyname for m in d.members if not m.pyname.startswith("_")]})
     jp = {1: "absent", 2: "absent"}
     if idx is not None:
-        for t, path in ((1, ["sub", "deep", nm["m1"]]), (2, ["sub", nm["m2"]])):
+        for t, path in ((1, ["sub", "deep", nm["m1"]]), (2, [*({"privtwin": ["_hid"], "privtwindeep": ["sub", "deep", "_hid"]}.get(sc.get("variant"), ["sub"])), nm["m2"]])):
             jid = "/".join([rootname, sid, *path, nm[t]])
             e = idx.get("functions" if sc["kind"] == "function" else "classes", {}).get(jid)
             if e is not None:
